@@ -19,7 +19,7 @@ use crate::engine;
 // ---------------------------------------------------------------------------
 // bytes
 
-pub trait ByteLike: Copy + PartialEq<u8> + PartialOrd<u8> {
+pub trait ByteLike: Copy + PartialEq<u8> + PartialOrd<u8> + PartialEq<Self> {
     fn ge_i8(self, v: i8) -> bool;
     /// SMT term of this byte (8-bit bit-vector)
     fn term(self) -> String;
@@ -80,6 +80,21 @@ impl PartialEq<u8> for SymByte {
         match self.concrete() {
             Some(b) => b == *o,
             None => engine::decide(alloc::format!("(= {} #x{:02x})", self.term(), o)),
+        }
+    }
+}
+
+/// byte == byte (both possibly symbolic): code that compares two bytes of the text
+impl PartialEq<SymByte> for SymByte {
+    fn eq(&self, o: &SymByte) -> bool {
+        match (self.concrete(), o.concrete()) {
+            (Some(a), Some(b)) => a == b,
+            _ => {
+                if self.0 == o.0 {
+                    return true;
+                }
+                engine::decide(alloc::format!("(= {} {})", self.term(), o.term()))
+            }
         }
     }
 }
@@ -202,6 +217,17 @@ fn bytes_eq_term<A: ByteLike, B: ByteLike>(a: &[A], b: &[B]) -> Option<Result<bo
     Some(Err(alloc::format!("(and {})", parts.join(" "))))
 }
 
+/// text == text (slices of the symbolic text compared with each other)
+impl PartialEq<SymStr> for SymStr {
+    fn eq(&self, o: &SymStr) -> bool {
+        match bytes_eq_term(&self.0, &o.0) {
+            None => false,
+            Some(Ok(v)) => v,
+            Some(Err(t)) => engine::decide(t),
+        }
+    }
+}
+
 impl PartialEq<[u8]> for SymBytes {
     fn eq(&self, o: &[u8]) -> bool {
         match bytes_eq_term(&self.0, o) {
@@ -288,7 +314,7 @@ impl Cls {
     }
 }
 
-pub trait Text: LitLike<LBytes = <Self as Text>::Bytes> + Index<Range<usize>, Output = Self> {
+pub trait Text: LitLike<LBytes = <Self as Text>::Bytes> + Index<Range<usize>, Output = Self> + PartialEq<Self> {
     type Byte: ByteLike;
     type Bytes: ?Sized
         + Index<usize, Output = Self::Byte>
